@@ -18,7 +18,6 @@ Contract checked on every (damaged text, configuration):
 (The recogniser accepting while the loader raises LexerError/ParseError is not a C05 matter; it
 is only tallied.)
 """
-import itertools
 import random
 import re
 import time
@@ -519,7 +518,7 @@ def build_inputs(ctx):
         if 3 <= len(lab) <= 26 and tuple(lab) not in seen:
             seen.add(tuple(lab))
             labels.append(lab)
-    pair_all_max = 13 if th else 5          # every pair of damages for labels up to this many tokens
+    pair_all_max = 13 if th else 7          # every pair of damages for labels up to this many tokens
     pair_sample = 20000 if th else 0        # seeded sample of pairs for the longer base labels
     texts = {}
 
